@@ -1191,8 +1191,9 @@ def directed_shapes() -> dict:
     docs = [
         "ends with a backslash \\", "next line", "close */ and open /* comment", 'triple """ quote and \'\'\' single', "line // comment ??/",
         "escapes \\x \\N{x} \\u12 \\777 \\", "{{ braces }} {% block %} {# c #}", "percent %s %(a)d {0} {x}", "\ttab and trailing space  ", "unicode é ❤   end",
+        "backslash followed by blanks \\   ", "backslash followed by a tab \\\t", "two backslashes and a blank \\\\ ",
     ]  # fmt: skip
-    types.append(_T(ns, "Docs", [_F(_U8, "x", doc=docs[0]), _F(_U8, "y", doc=docs[3]), _F(_U8, "z", doc=docs[5]), _K(_U8, "K", "1")], doc=docs))
+    types.append(_T(ns, "Docs", [_F(_U8, "x", doc=docs[0]), _F(_U8, "y", doc=docs[3]), _F(_U8, "z", doc=docs[5]), _F(_U8, "w", doc=docs[10]), _F(_U8, "v", doc=docs[11]), _K(_U8, "K", "1")], doc=docs))
     types.append(_S(ns, "DocSvc", [_F(_U8, "x", doc=docs[0])], [_F(_U8, "y", doc=docs[2])]))
     # namespaces and a type whose names are reserved in every target, referenced from another namespace and another root
     kw = _T(ns + ["import", "for", "class"], "while", [_F(_U8, "x")])
